@@ -723,7 +723,8 @@ RCP<const Boolean> Le(const RCP<const Basic> &lhs, const RCP<const Basic> &rhs)
     if (is_a_Number(*lhs) and is_a_Number(*rhs)) {
         RCP<const Number> s = down_cast<const Number &>(*lhs).sub(
             down_cast<const Number &>(*rhs));
-        if (s->is_negative())
+        // numbers of different kinds (e.g. 1 and 1.0) can be numerically equal
+        if (s->is_negative() or s->is_zero())
             return boolean(true);
         return boolean(false);
     }
